@@ -63,6 +63,8 @@ def explore(cdef, interp, max_paths=400):
             info["undecided"].append(f"uncaught raise {e.exc_name} in contract")
         except RecursionError:
             info["undecided"].append("recursion limit")
+        except Exception as e:  # an error inside the contract text on this path (e.g. after the code changed shape)
+            info["undecided"].append(f"contract error on a path: {type(e).__name__}: {e}")
         # cover for this path: hypotheses satisfiable
         if len(c.obligations) > n_before:
             last = c.obligations[-1]
@@ -273,7 +275,8 @@ def run(prop, tier="quick", seed=0, replay=None, only=None):
         if line not in printed:
             print(line)
             printed.add(line)
-    if broken:
+    confirmed = [v for v in violations if v[2]]
+    if broken and not confirmed:
         for b in broken:
             print("CHECKER-ERROR", b)
         return 3
@@ -281,6 +284,8 @@ def run(prop, tier="quick", seed=0, replay=None, only=None):
         for name, path, replayed in violations:
             tail = "" if replayed else " no-failing-input-found"
             print(f"VIOLATION property={prop} replay={path} obligation={name}{tail}")
+        for b in broken:
+            print("CHECKER-ERROR", b)
         return 1
     if undecided:
         for u in undecided:
